@@ -145,10 +145,12 @@ class Scenario:
         os.mkdir(self.outside)
         self._eid = 0
 
-    def start(self, recursive=True):
+    def start(self, recursive=True, bytes_watch=False):
         self.initial = snapshot(self.root)
         self.q = queue.Queue()
-        self.emitter = FSEventsEmitter(self.q, ObservedWatch(self.root, recursive=recursive))
+        self.bytes_watch = bytes_watch
+        self.errors = []
+        self.emitter = FSEventsEmitter(self.q, ObservedWatch(os.fsencode(self.root) if bytes_watch else self.root, recursive=recursive))
         # items that existed before the stream started are known to the emitter
         # only through later events; nothing to do here.
 
@@ -158,16 +160,27 @@ class Scenario:
 
     def deliver(self, *batches):
         for batch in batches:
-            self.emitter.queue_events(1.0, list(batch))
+            try:
+                self.emitter.queue_events(1.0, list(batch))
+            except Exception as e:  # noqa: BLE001  (the native callback would log and drop the rest of the batch)
+                self.errors.append(f"queue_events raised {type(e).__name__}: {e}")
 
     def result(self):
         out = []
         while not self.q.empty():
             out.append(self.q.get()[0])
+        if getattr(self, "bytes_watch", False):
+            # a watch given as bytes delivers bytes paths, every one of them; compared after decoding
+            self.type_errors = [repr(e) for e in out if not isinstance(e.src_path, bytes) or (e.dest_path and not isinstance(e.dest_path, bytes))]
+            out = [type(e)(os.fsdecode(e.src_path), os.fsdecode(e.dest_path), is_synthetic=e.is_synthetic) if e.dest_path else type(e)(os.fsdecode(e.src_path), is_synthetic=e.is_synthetic) for e in out]
         return out
 
     def check(self, problems, expect=None):
         events = self.result()
+        for msg in getattr(self, "errors", []):
+            problems.append(f"{self.label}: {msg}")
+        if getattr(self, "type_errors", None):
+            problems.append(f"{self.label}: a watch given as bytes delivered str paths: {self.type_errors[:2]}")
         final_model = replay(self.initial, events, self.root, problems, self.label)
         actual = snapshot(self.root)
         if final_model != actual:
@@ -380,6 +393,30 @@ def main():
         finally:
             os.stat = real_stat
         s.check(problems)
+
+    # S14: the same stream contract for a watch whose path was given as bytes: a directory with descendants renamed inside the
+    # tree plus a creation in the same batch - one moved event + synthetic descendants, everything as bytes, replay = tree
+    for bw in (False, True):
+        s = Scenario(f"S14 rename a populated directory + create, {'bytes' if bw else 'str'} watch path")
+        os.makedirs(os.path.join(s.root, "d", "sub"))
+        touch(os.path.join(s.root, "d", "x"))
+        touch(os.path.join(s.root, "d", "sub", "y"))
+        s.start(bytes_watch=bw)
+        idd = ino(os.path.join(s.root, "d"))
+        os.rename(os.path.join(s.root, "d"), os.path.join(s.root, "e"))
+        touch(os.path.join(s.root, "f"))
+        i_f = ino(os.path.join(s.root, "f"))
+        s.deliver([s.ev("d", idd, F_RENAMED | F_IS_DIR), s.ev("e", idd, F_RENAMED | F_IS_DIR), s.ev("f", i_f, F_CREATED | F_IS_FILE)])
+
+        def exp14(events, problems, s=s):
+            dm = [(e.src_path, e.dest_path, e.is_synthetic) for e in events if isinstance(e, DirMovedEvent)]
+            fm = sorted((e.src_path, e.dest_path) for e in events if isinstance(e, FileMovedEvent) and e.is_synthetic)
+            R = lambda *p: os.path.join(s.root, *p)
+            if (R("d"), R("e"), False) not in dm or (R("d", "sub"), R("e", "sub"), True) not in dm or fm != sorted([(R("d", "x"), R("e", "x")), (R("d", "sub", "y"), R("e", "sub", "y"))]):
+                problems.append(f"{s.label}: one moved event for the directory plus one synthetic moved event per descendant expected; directory moves {dm}, synthetic file moves {fm}")
+            if not [e for e in events if isinstance(e, FileCreatedEvent) and e.src_path == R("f")]:
+                problems.append(f"{s.label}: the creation later in the same batch was not reported")
+        s.check(problems, exp14)
 
     # S12: two renames whose halves interleave in one batch (per-item coalescing moves the destination of the first behind
     # the second rename): each is one moved event with both paths
